@@ -91,6 +91,8 @@ def mc_configs(pid, tier):
                                       RandomOrder=True, MaxMsgs=3, MaxSteps=4 if not q else 3, MaxLatCtl=2 if not q else 1)),
             ("mc_lat_t3", base_consts(Tick=3, GMin=0, GMax=4, LatChoices={1}, MaxChoices={2}, Offsets={0, 2},
                                       RandomOrder=False, MaxMsgs=3, MaxSteps=3, MaxLatCtl=1)),
+            ("mc_lat_release", base_consts(Tick=2, GMin=1, GMax=3, LatChoices={5}, MaxChoices=set(), Offsets={0}, CtlOps={"release"},
+                                           HostCtlOps={"release"}, RandomOrder=False, MaxMsgs=2, MaxSteps=4, MaxCtl=2, MaxLatCtl=1)),
         ]
         cfgs.append(("mc_lat_probe", base_consts(Tick=2, GMin=1, GMax=3, LatChoices={5}, MaxChoices={4}, Offsets={0}, RandomOrder=True,
                                                  Kinds={"probe"}, MaxMsgs=4, MaxSteps=4, MaxLatCtl=1)))
@@ -121,6 +123,9 @@ def gen_configs(pid, tier):
     if pid == "C08":
         cfgs = [("gen_hold", base_consts(GMin=1, GMax=1, LatChoices={3}, CtlOps=set(HOLD_OPS), HostCtlOps={"release"},
                                          AllowManual=True, MaxMsgs=2, MaxSteps=3, MaxCtl=2, MaxLatCtl=1))]
+        # hold, two sends, a manual delivery, release: three controller calls
+        cfgs.append(("gen_hold_manual", base_consts(GMin=1, GMax=1, LatChoices=set(), CtlOps=set(HOLD_OPS), HostCtlOps=set(),
+                                                    AllowManual=True, MaxMsgs=2, MaxSteps=3, MaxCtl=3, MaxLatCtl=0)))
         cfgs.append(("gen_hold_repair", base_consts(GMin=1, GMax=1, LatChoices=set(), CtlOps=set(HOLD_REPAIR_OPS), HostCtlOps=set(),
                                                     AllowManual=False, MaxMsgs=2, MaxSteps=3, MaxCtl=3, MaxLatCtl=0)))
         if not q:
@@ -129,7 +134,10 @@ def gen_configs(pid, tier):
         return cfgs
     if pid == "C14":
         cfgs = [("gen_lat", base_consts(Tick=2, GMin=1, GMax=1, LatChoices={0, 2, 3, 5}, Offsets={0, 1},
-                                        MaxMsgs=3, MaxSteps=4, MaxLatCtl=2))]
+                                        MaxMsgs=3, MaxSteps=4, MaxLatCtl=2)),
+                # release calls on links that were never held (Sim handle and host code)
+                ("gen_lat_release", base_consts(Tick=2, GMin=3, GMax=3, LatChoices={5}, Offsets={0}, CtlOps={"release"},
+                                                HostCtlOps={"release"}, MaxMsgs=2, MaxSteps=4, MaxCtl=2, MaxLatCtl=1))]
         if not q:
             cfgs.append(("gen_lat_t3", base_consts(Tick=3, GMin=4, GMax=4, LatChoices={0, 1, 3, 7}, Offsets={0, 2},
                                                    MaxMsgs=3, MaxSteps=4, MaxLatCtl=2)))
